@@ -608,6 +608,44 @@ def lirloop_compare(case, impl, model):
 
 
 # ------------------------------------------------------------------------------------------------
+# Deterministic tour (round 5, coverage-guided): hand-written programs that reach lowering /
+# instruction-selection arms the random families do not (see reports/C01.md, coverage table). The
+# expected lines are written by hand from the language semantics; every run executes them on wasm +
+# TS and through the source-semantics leg.
+# ------------------------------------------------------------------------------------------------
+
+TOUR = [
+    ('operators-strings', 'class Main {\n  function id(s: Str): Str = s\n  function lit(): Str = "const"\n  function main(): unit = {\n    let a = "17".toInt();\n    let b = "5".toInt();\n    Process.println(Str.fromInt(a / b));\n    Process.println(Str.fromInt(a % b));\n    Process.println(if a <= b { "le" } else { "gt" });\n    Process.println(if b <= b { "le" } else { "gt" });\n    Process.println(if a >= b { "ge" } else { "lt" });\n    Process.println(if b >= a { "ge" } else { "lt" });\n    Process.println(if a != b { "ne" } else { "eq" });\n    Process.println(if b != b { "ne" } else { "eq" });\n    let s = "lit";\n    let t = s;\n    Process.println(t :: "-" :: "x" :: "y");\n    Process.println("ab" :: "cd");\n    Process.println(if Main.id("ab") == "ab" { "same" } else { "diff" });\n    Process.println(if Main.id("ab") == "ac" { "same" } else { "diff" });\n    Process.println(if Main.id("ab") != "ac" { "ne" } else { "eq" });\n    Process.println(if Main.id("ab") != "ab" { "ne" } else { "eq" });\n    Process.println(Main.lit());\n    let nb = !(a < b);\n    Process.println(if nb { "T" } else { "F" });\n    let nc = !(b < a);\n    Process.println(if nc { "T" } else { "F" })\n  }\n}\n',
+     ['3', '2', 'gt', 'le', 'ge', 'lt', 'ne', 'eq', 'lit-xy', 'abcd', 'same', 'diff', 'ne', 'eq', 'const', 'T', 'F']),
+    ('patterns', 'class Pt(val x: int, val y: int) {}\nclass Sh(Ci(int), Re(int, int)) {}\nclass Opt<T>(None, Some(T)) {}\nclass W(Wa(Sh), Wb(int), Wc) {}\nclass Q(val a: Opt<int>, val b: int) {}\nclass Main {\n  function area(s: Sh): int = match s { Ci(r) -> r * r, Re(w, h) -> w * h }\n  function f(w: W): int = match w { Wa(Ci(v) | Re(_, v)) | Wb(v) -> v, Wc -> 0 - 1 }\n  function g(p: Pt): int = { let { x, y as z } = p; x * 10 + z }\n  function h(o: Opt<Pt>): int = match o { Some({ x, y as _ }) -> x, None -> 0 - 5 }\n  function k(o: Opt<int>): int = if let Some(v) = o { v + 1 } else { 0 }\n  function m(o: Opt<Opt<int>>): int = if let Some(Some(v)) = o { v } else { 0 - 2 }\n  function q(o: Opt<Q>): int = match o { Some({ a as Some(z), b }) -> z + b, Some({ a as None, b }) -> b, None -> 0 }\n  function p(n: int): unit = Process.println(Str.fromInt(n))\n  function main(): unit = {\n    Main.p(Main.area(Sh.Ci(3)));\n    Main.p(Main.area(Sh.Re(2, 5)));\n    Main.p(Main.f(W.Wa(Sh.Ci(4))));\n    Main.p(Main.f(W.Wa(Sh.Re(1, 6))));\n    Main.p(Main.f(W.Wb(7)));\n    Main.p(Main.f(W.Wc()));\n    Main.p(Main.g(Pt.init(3, 4)));\n    Main.p(Main.h(Opt.Some(Pt.init(8, 9))));\n    Main.p(Main.h(Opt.None<Pt>()));\n    Main.p(Main.k(Opt.Some(4)));\n    Main.p(Main.k(Opt.None<int>()));\n    Main.p(Main.m(Opt.Some(Opt.Some(3))));\n    Main.p(Main.m(Opt.Some(Opt.None<int>())));\n    Main.p(Main.m(Opt.None<Opt<int>>()));\n    Main.p(Main.q(Opt.Some(Q.init(Opt.Some(30), 4))));\n    Main.p(Main.q(Opt.Some(Q.init(Opt.None<int>(), 5))));\n    Main.p(Main.q(Opt.None<Q>()))\n  }\n}\n',
+     ['9', '10', '4', '6', '7', '-1', '34', '8', '-5', '5', '0', '3', '-2', '-2', '34', '5', '0']),
+    ('vec-tuples-closures-constants', 'class P(val v: int) {}\nclass A(val n: int) {}\nclass B(val n: int) {}\nclass Color(Red, Green, Blue) {}\nclass Main {\n  function paint(c: Color, n: int): int = if n <= 0 { match c { Red -> 1, Green -> 2, Blue -> 3 } } else { Main.paint(c, n - 1) + 10 }\n  function loop(n: int): unit = if n <= 0 { Process.println("done") } else { Main.loop(n - 1) }\n  function emptyThen(c: bool): int = { let r = if c { 0 } else { let _ = Process.println("else"); 1 }; r }\n  function p(n: int): unit = Process.println(Str.fromInt(n))\n  function main(): unit = {\n    let a = "6".toInt();\n    let v = Vec.of<int>(4);\n    v.push(a);\n    v.push(9);\n    Main.p(v.get(1) + v.get(2));\n    Main.p(v.pop());\n    v.set(0, 7);\n    Main.p(v.get(0));\n    Main.p(v.length());\n    let vp = Vec.of<P>(P.init(3));\n    vp.push(P.init(a));\n    Main.p(vp.get(1).v * 10 + vp.get(0).v);\n    Main.p(A.init(1).n + B.init(2).n);\n    Main.p(Main.paint(Color.Green(), 2));\n    Main.p(Main.paint(Color.Green(), 0));\n    Main.loop(3);\n    let t = (1, a);\n    let u = (a, 2);\n    Main.p(t.e0 + t.e1 * 10 + u.e0 * 100 + u.e1 * 1000);\n    let f = (x: int) -> ((y: int) -> x + y * 10 + a * 100);\n    Main.p(f(1)(2));\n    Main.p(Main.emptyThen(a < 3));\n    Main.p(Main.emptyThen(a > 3))\n  }\n}\n',
+     ['15', '9', '7', '2', '63', '3', '22', '2', 'done', '2661', '621', 'else', '1', '0']),
+    ('escapes-generics-erasure', 'class Opt<T>(None, Some(T)) {}\nclass Pt(val x: int, val y: int) {}\nclass G<T>(val o: Opt<T>, val t: T) {\n  method first(): int = match this.o { None -> 0 - 1, Some(_) -> 1 }\n}\nclass H(val u: unit, val o: Opt<Pt>, val n: int) {}\nclass Main {\n  function usePt(p: Pt): int = p.x * 100 + p.y\n  function pick(o: Opt<Pt>): int = match o { Some(p) -> Main.usePt(p), None -> 0 }\n  function p(n: int): unit = Process.println(Str.fromInt(n))\n  function main(): unit = {\n    let a = "8".toInt();\n    Process.println("a\\tb");\n    Process.println("x\\ny");\n    Process.println("p\\\\q");\n    Process.println("say \\"hi\\"");\n    let g = G.init(Opt.Some(a), a);\n    let { o, t } = g;\n    Main.p(g.first() * 10 + t + (match o { Some(v) -> v, None -> 0 }));\n    let g2 = G.init(Opt.None<Pt>(), Pt.init(1, 2));\n    Main.p(g2.first() + g2.t.y);\n    let h = H.init({  }, Opt.Some(Pt.init(a, 3)), 0);\n    Main.p(Main.pick(h.o) + h.n);\n    Main.p(Main.pick(Opt.None<Pt>()));\n    let m = Pt.init(4, 5);\n    let area = Main.usePt;\n    Main.p(area(m))\n  }\n}\n',
+     ['a\tb', 'x', 'y', 'p\\q', 'say "hi"', '26', '1', '803', '0', '405']),
+    ('closures-this-dedup-control', 'class Pt(val x: int, val y: int) {\n  method sum(): int = Main.big(this, 3)\n  method adder(): (int) -> int = (k) -> k + this.x\n}\nclass E1(A(int), B(int, int)) {}\nclass E2(C(int), D(int, int)) {}\nclass Main {\n  function big(p: Pt, n: int): int = if n <= 0 { p.x } else { Main.big(p, n - 1) + p.y }\n  function mk(n: int): Pt = { let _ = Process.println("mk"); Pt.init(n, n) }\n  function inc(x: int): int = x + 1\n  function apply(f: (int) -> int, n: int): int = if n <= 0 { f(0) } else { Main.apply(f, n - 1) + f(n) }\n  function call0(f: () -> int, n: int): int = if n <= 0 { f() } else { Main.call0(f, n - 1) + 1 }\n  function e1(e: E1): int = match e { A(v) -> v, B(v, w) -> v + w }\n  function e2(e: E2): int = match e { C(v) -> v * 2, D(v, w) -> v * w }\n  function loop(n: int): unit = if n <= 0 { Process.println("done") } else { Main.loop(n - 1) }\n  function id(s: Str): Str = s\n  function p(n: int): unit = Process.println(Str.fromInt(n))\n  function main(): unit = {\n    let a = "3".toInt();\n    let pt = Pt.init(a, 4);\n    let m = pt.sum;\n    Main.p(Main.call0(m, a));\n    Main.p(Main.apply(pt.adder(), a));\n    Main.p(Main.apply(Main.inc, a));\n    Main.p(Main.call0(() -> a * 7, 2));\n    Main.p(Main.e1(E1.A(a)) + Main.e1(E1.B(a, 10)));\n    Main.p(Main.e2(E2.C(a)) + Main.e2(E2.D(a, 10)));\n    Main.loop(a);\n    Main.mk(a);\n    let _ = if a < 2 {  } else { Process.println("else-only") };\n    let _ = if a < 5 {  } else { Process.println("never") };\n    Process.println(if Main.id("\\v\\b") != Main.id("\\f\\r") { "ctl-ne" } else { "ctl-eq" });\n    Process.println(if Main.id("a\\0b") == Main.id("a\\0b") { "nul-eq" } else { "nul-ne" })\n  }\n}\n',
+     ['18', '18', '10', '23', '16', '36', 'done', 'mk', 'else-only', 'ctl-ne', 'nul-eq']),
+]
+
+
+def tour_cases():
+    return [{"family": "tour-" + name, "src": src, "expect": list(exp), "std": True} for name, src, exp in TOUR]
+
+
+# constant-parameter elimination arms that the pipeline itself never feeds (it runs before the tail
+# recursion rewrite): SingleIf / Break / While statements, and an Int31 constant
+TOUR_CPE = [
+    "cpe | | fn f0 0 call f1 2 2 j1 c0 call print 1 c0 _ call f1 2 1 j1 c1 call print 1 c1 _ ret 0 end "
+    "fn f1 2 bin x801 le p0 0 if x801 { } { bin x800 sub p0 1 call f1 2 x800 j1 x810 bin x820 add x810 p1 } 1 x802 p1 x820 ret x802 end"
+    " ## 2 F f0 0 0 4 c f1 2 2 j1 c print 1 x500 c f1 2 1 j1 c print 1 x501"
+    " F f1 2 0 6 r p0 r p0 c f1 2 x800 j1 r x810 r p1 r p1",
+    "cpe | | fn f0 0 call f1 3 3 5 9 c0 call print 1 c0 _ ret 0 end "
+    "fn f1 3 while 2 i p0 m acc 0 a2 { bin c le i 0 sif c 0 { brk acc } bin m sub i 1 bin a1 add acc p1 bin a2 add a1 p1 } r ret r end"
+    " ## 2 F f0 0 0 2 c f1 3 3 5 9 c print 1 x500 F f1 3 0 3 r p0 r p1 r p1",
+]
+
+
+# ------------------------------------------------------------------------------------------------
 # cpe: call graphs
 # ------------------------------------------------------------------------------------------------
 
@@ -1328,6 +1366,144 @@ def e2e_vecenum(rng):
     return {"family": "vec-of-enum", "src": src, "expect": exp, "std": False}
 
 
+# ------------------------------------------------------------------------------------------------
+# Deterministic boundary family for the runtime builtins (libsam.wat / TS prelude): every operation
+# with a precondition or a size-dependent path is probed AT its boundary, after histories that make
+# len < cap, len == cap and post-growth. Expected outcome (lines, then ok | panic:<message>) is
+# computed here from the language rules; wasm AND TS must both produce it (an engine trap where a
+# panic message is prescribed is a violation).
+# ------------------------------------------------------------------------------------------------
+
+VEC_OOB, VEC_POP = "panic:Vec index out of bounds", "panic:pop from empty Vec"
+
+
+def vec_histories():
+    """(name, source statements building `v`, contents, model ops). Values are n + k with n = "1".toInt()."""
+    def pushes(k, start=0):
+        xs = [1 + start + i for i in range(k)]
+        return [f"    let _ = v.push(n + {start + i});" for i in range(k)], xs, [t for x in xs for t in ("P", str(x))]
+    hs = [("empty", ["    let v = Vec.empty<int>();"], [], ["E"])]
+    hs.append(("of", ["    let v = Vec.of<int>(n + 6);"], [7], ["O", "7"]))
+    for k in (1, 3, 4, 5, 9):       # len < cap, len == cap (4), after the first and the second growth
+        st, xs, ops = pushes(k)
+        hs.append((f"push{k}", ["    let v = Vec.empty<int>();"] + st, xs, ["E"] + ops))
+    st, xs, ops = pushes(2)
+    hs.append(("cap2-full", ["    let v = Vec.withCapacity<int>(2);"] + st, xs, ["W", "2"] + ops))
+    st, xs, ops = pushes(3)
+    hs.append(("cap2-grown", ["    let v = Vec.withCapacity<int>(2);"] + st, xs, ["W", "2"] + ops))
+    st, xs, ops = pushes(4)
+    hs.append(("push4-pop", ["    let v = Vec.empty<int>();"] + st + ["    let _ = v.pop();"], xs[:-1], ["E"] + ops + ["Q"]))
+    hs.append(("of-pop", ["    let v = Vec.of<int>(n + 6);", "    let _ = v.pop();"], [], ["O", "7", "Q"]))
+    st, xs, ops = pushes(1)
+    hs.append(("reserve3-push1", ["    let v = Vec.empty<int>();", "    let _ = v.reserve(3);"] + st, xs, ["E", "R", "3"] + ops))
+    return hs
+
+
+def boundary_cases():
+    out = []
+    head = "class Main {\n  function p(x: int): unit = Process.println(Str.fromInt(x))\n  function main(): unit = {\n    let n = \"1\".toInt();\n"
+    tail = "\n  }\n}\n"
+    for name, st, xs, hops in vec_histories():
+        L = len(xs)
+        # in range: read everything, overwrite everything, read back, pop everything
+        body, exp = list(st), []
+        body.append("    Main.p(v.length());"); exp.append(str(L)); mops = ["L"]
+        for i in range(L):
+            body.append(f"    Main.p(v.get(n - 1 + {i}));"); exp.append(str(xs[i])); mops += ["G", str(i)]
+        for i in range(L):
+            body.append(f"    let _ = v.set(v.length() - {L - i}, 100 + {i});"); mops += ["S", str(i), str(100 + i)]
+        for i in (0, L - 1):
+            if 0 <= i < L:
+                body.append(f"    Main.p(v.get({i}));"); exp.append(str(100 + i)); mops += ["G", str(i)]
+        body.append("    let _ = v.push(n + 41);"); mops += ["P", "42"]
+        body.append("    Main.p(v.get(v.length() - 1));"); exp.append("42"); mops += ["G", str(L)]
+        body.append("    Main.p(v.length());"); exp.append(str(L + 1)); mops += ["L"]
+        for i in range(L + 1):
+            body.append("    Main.p(v.pop());"); mops.append("Q")
+        exp += [str(42)] + [str(100 + i) for i in reversed(range(L))]
+        body.append("    Main.p(v.length())"); exp.append("0"); mops.append("L")
+        out.append({"family": "boundary-vec", "src": head + "\n".join(body) + tail, "expect": exp, "end": "ok",
+                    "std": False, "both": True, "name": f"{name}/in-range", "hops": hops, "mops": mops})
+        # capacity after the history: expected value comes from the Lean runtime model (filled in by run).
+        # Capacity is implementation-defined (the reference semantics flags it; the TS backend reports the
+        # length): only the WebAssembly runtime, which the model mirrors, is compared.
+        out.append({"family": "boundary-vec", "src": head + "\n".join(list(st) + ["    Main.p(v.capacity())"]) + tail,
+                    "expect": None, "end": "ok", "std": False, "both": False, "name": f"{name}/capacity", "hops": hops, "mops": ["C"]})
+        # out of range, one probe per program (the run ends at the panic)
+        probes = [("get(-1)", "Main.p(v.get(0 - n))", VEC_OOB, ["G", "-1"]), ("get(len)", "Main.p(v.get(v.length()))", VEC_OOB, ["G", str(L)]),
+                  ("get(len+1)", "Main.p(v.get(v.length() + n))", VEC_OOB, ["G", str(L + 1)]),
+                  ("set(-1)", "let _ = v.set(0 - n, 5)", VEC_OOB, ["S", "-1", "5"]), ("set(len)", "let _ = v.set(v.length(), 5)", VEC_OOB, ["S", str(L), "5"]),
+                  ("set(len+1)", "let _ = v.set(v.length() + n, 5)", VEC_OOB, ["S", str(L + 1), "5"])]
+        for pn, code, end, mo in probes:
+            body = list(st) + ['    Process.println("before");', f"    {code};", '    Process.println("after")']
+            out.append({"family": "boundary-vec", "src": head + "\n".join(body) + tail, "expect": ["before"], "end": end,
+                        "std": False, "both": True, "name": f"{name}/{pn}", "hops": hops, "mops": mo, "probe": True})
+        body = list(st) + [f"    let _ = v.pop();" for _ in range(L)] + ['    Process.println("before");', "    Main.p(v.pop());",
+                                                                       '    Process.println("after")']
+        out.append({"family": "boundary-vec", "src": head + "\n".join(body) + tail, "expect": ["before"], "end": VEC_POP,
+                    "std": False, "both": True, "name": f"{name}/pop-empty", "hops": hops, "mops": ["Q"] * (L + 1), "probe": True, "pops": L})
+    # strings, integers at the extremes, Process.panic
+    src = ("class Main {\n  function id(s: Str): Str = s\n  function deep(k: int): int = if k <= 0 { Process.panic<int>(\"deep \" :: Str.fromInt(k)) } else { Main.deep(k - 1) + 1 }\n"
+           "  function main(): unit = {\n"
+           "    let mx = \"2147483647\".toInt();\n    let mn = \"-2147483648\".toInt();\n    let z = \"0\".toInt();\n"
+           "    Process.println(Str.fromInt(mx));\n    Process.println(Str.fromInt(mn));\n    Process.println(Str.fromInt(z));\n"
+           "    Process.println(Str.fromInt(\"-13\".toInt() + \"7\".toInt()));\n"
+           "    Process.println(if mn < mx { \"lt\" } else { \"ge\" });\n    Process.println(if mx <= mx { \"le\" } else { \"gt\" });\n"
+           "    Process.println(if mn >= mx { \"ge\" } else { \"lt\" });\n    Process.println(if mx > mn { \"gt\" } else { \"le\" });\n"
+           "    Process.println(if mn == mn { \"eq\" } else { \"ne\" });\n    Process.println(if mn != mx { \"ne\" } else { \"eq\" });\n"
+           "    Process.println(Str.fromInt(mx / mx) :: Str.fromInt(mn / mn) :: Str.fromInt(mx % mx) :: Str.fromInt(z / mx));\n"
+           "    Process.println(\"\" :: Main.id(\"\") :: \"x\" :: Main.id(\"\"));\n"
+           "    Process.println(if Main.id(\"\") == \"\" { \"empty-eq\" } else { \"empty-ne\" });\n"
+           "    Process.println(if Main.id(\"a\") == Main.id(\"ab\") { \"prefix-eq\" } else { \"prefix-ne\" });\n"
+           "    Process.println(Str.fromInt(Main.deep(3)));\n    Process.println(\"unreachable\")\n  }\n}\n")
+    out.append({"family": "boundary-str-int", "src": src,
+                "expect": ["2147483647", "-2147483648", "0", "-6", "lt", "le", "lt", "gt", "eq", "ne", "1100", "x",
+                           "empty-eq", "prefix-ne"], "end": "panic:deep 0", "std": False, "both": True, "name": "extremes+panic"})
+    return out
+
+
+def vec_model_tie(ctx, cases, stats):
+    """Runs the Lean Vec runtime model (drv-c01 `vecrt`) on the op history of every boundary-vec case:
+    its observations must equal the expectation computed here (which wasm and TS must meet); the
+    capacity cases get their expectation from the model. Returns the cases to execute."""
+    vc = [c for c in cases if c.get("mops") is not None]
+    lines = []
+    for c in vc:
+        hops = [t for t in c["hops"]]
+        lines.append("vecrt " + " ".join(hops + c["mops"]))
+    try:
+        rc, out, err = common.run_exec(common.driver_bin(PROP), [], lines)
+    except Exception as ex:
+        out = []
+    if len(out) != len(vc):
+        stats["vecrt"] = "driver unavailable"
+        return [c for c in cases if c.get("expect") is not None]
+    n = 0
+    for c, o in zip(vc, out):
+        vals, end = o.rsplit("|", 1)
+        vals = [v for v in vals.split(",") if v != ""]
+        # values printed by the history itself (its own pops) precede the probe's observations
+        hist_prints = sum(1 for t in c["hops"] if t == "Q")
+        vals = vals[hist_prints:]
+        if c["expect"] is None:
+            c["expect"] = vals
+            n += 1
+            continue
+        if c.get("probe"):
+            want_vals, want_end = [str(100 + i) for i in []], c["end"]
+            got_vals = vals if not c.get("pops") else vals[c["pops"]:]
+            ok = (end == want_end.replace("panic:", "panic:")) and got_vals == []
+        else:
+            ok = end == "ok" and vals == c["expect"]
+        n += 1
+        if not ok:
+            ctx.violation(f"Vec runtime model (Model/VecRt.lean) and the expectation of boundary case {c['name']} differ: model says {o}",
+                          {"broken": "vecrt model tie", "case": c["name"], "model": o, "expected": c["expect"], "end": c["end"],
+                           "source": c["src"]}, no_input=True)
+    stats["vecrt"] = n
+    return cases
+
+
 def e2e_case(rng):
     k = rng.below(100)
     if k < 14:
@@ -1431,12 +1607,20 @@ def run_e2e(ctx, cases, label, stats):
             stats["no_node"] = True
             continue
         got = (w.get("lines"), w.get("end"))
-        if got == (c["expect"], "ok"):
+        want_end = c.get("end", "ok")
+        if got == (c["expect"], want_end):
+            t = r.get("ts", {})
+            if c.get("both") and t.get("end") not in (None, "no-node") and (t.get("lines"), t.get("end")) != (c["expect"], want_end):
+                ctx.violation(f"TypeScript output of a {c['family']} program ({c.get('name', '')}) is {t.get('lines')} / {t.get('end')}; "
+                              f"the language prescribes {c['expect']} / {want_end} (WebAssembly agrees with that)",
+                              {"kind": "e2e", "label": label, "source": c["src"], "expected": c["expect"], "expected_end": want_end,
+                               "wasm": w, "ts": t})
+                continue
             stats["e2e_ok"] += 1
             continue
         # C01-F1 / C01-F2 are fixed (e715c2f, c57720b): nothing is suppressed any more
-        ctx.violation(f"compiled WebAssembly of a {c['family']} program prints {w.get('lines')} / ends {w.get('end')}; "
-                      f"the source semantics give {c['expect']} / ok",
+        ctx.violation(f"compiled WebAssembly of a {c['family']} program {c.get('name', '')} prints {w.get('lines')} / ends {w.get('end')}; "
+                      f"the source semantics give {c['expect']} / {want_end}",
                       {"kind": "e2e", "label": label, "source": c["src"], "expected": c["expect"], "wasm": w,
                        "ts": r.get("ts")})
 
@@ -1543,9 +1727,10 @@ def run(ctx):
         data = json.load(open(os.path.join(cdir, f)))
         if data.get("kind") == "e2e" and have_exec:
             run_e2e(ctx, [data], f"corpus/{f}", stats)
-    n_layout, n_tail, n_cpe, n_e2e = ctx.scale((500, 1200, 700, 200), (6000, 15000, 9000, 2500))
+    n_layout, n_tail, n_cpe, n_e2e = ctx.scale((400, 800, 500, 160), (6000, 15000, 9000, 2500))
     # protocol cases
-    cases = [layout_case(rng.fork()) for _ in range(n_layout)]
+    cases = [{"kind": "cpe", "line": l, "arity": {}} for l in TOUR_CPE]
+    cases += [layout_case(rng.fork()) for _ in range(n_layout)]
     cases += [tailrec_case(rng.fork(), allow_backward=(i % 2 == 0)) for i in range(n_tail)]
     cases += [cpe_case(rng.fork(), rotate_bias=4) for _ in range(n_cpe)]
     cases += [cpesem_case(rng.fork()) for _ in range(n_cpe)]
@@ -1558,7 +1743,7 @@ def run(ctx):
             break
     # end to end
     if have_exec and not ctx.violations:
-        e2e = [e2e_case(rng.fork()) for _ in range(n_e2e)]
+        e2e = tour_cases() + vec_model_tie(ctx, boundary_cases(), stats) + [e2e_case(rng.fork()) for _ in range(n_e2e)]
         # one dedicated probe per open finding
         e2e.append({"family": "probe-F1", "src": PROBES_F1[0], "expect": ["2"], "sig_f1": True, "sig_f2": False})
         e2e.append(e2e_nat(rng.fork(), True))
